@@ -175,7 +175,9 @@ theorem skipBlankBlockGo_after (s : Src) (n p c : Nat) : After s p (skipBlankBlo
     split
     · rename_i p' h
       exact ((skipBlankInline_after s p).trans (skipEol_after h)).trans (ih p' (c + 1))
-    · exact After.refl _ _
+    · split
+      · exact After.refl _ _
+      · exact skipBlankInline_after s p
 
 theorem skipBlankBlock_after (s : Src) (p : Nat) : After s p (skipBlankBlock s p).1 :=
   skipBlankBlockGo_after s _ p 0
